@@ -1,13 +1,7 @@
-//! scratch probe (not a registered check): run the pipeline on files given as args (std added)
 fn main() {
-  vcore::pool::install_hook();
-  let a: Vec<String> = std::env::args().collect();
-  let corpus = vcore::corpus::Corpus::load();
-  for f in &a[1..] {
-    let text = std::fs::read_to_string(f).unwrap();
-    let mut mods = vec![("Main".to_string(), text)];
-    mods.extend(corpus.std.iter().cloned());
-    let r = vcore::pipeline::run(&mods, true, true);
-    println!("{f}: syn={} oth={} kinds={:?} compiled={:?} panic={:?} silent={:?}", r.syntax_errors, r.other_errors, r.diag_kinds, r.compiled, r.panic, r.silent_recovery);
-  }
+  let seed: u64 = std::env::args().nth(1).and_then(|s| s.parse().ok()).unwrap_or(1);
+  let wild = std::env::args().nth(2).is_some();
+  let g = vcore::loopgen::generate(seed, wild);
+  println!("{}", g.project.modules[0].1);
+  println!("// {:?} entered {}", g.shapes, g.loops_entered);
 }
